@@ -213,3 +213,24 @@ Proof.
   assert (H6 : 0 <= simplify_dist_R) by (rewrite simplify_dist_value; lra).
   exact (proj1 (simplify_hausdorff far_R6 simplify_dist_R H6 far_R6_spec sub_path 0 (0, 0))).
 Qed.
+
+(* linear segments: the path IS the control polygon *)
+Lemma HD_refl d l : 0 <= d -> HD d l l.
+Proof.
+  intros Hd. split; intros q Hq; exists q; (split; [exact Hq|]); rewrite dist2_refl; exact Hd.
+Qed.
+
+(* not vacuous: (1, 0) is 1 px from the start (0, 0): dropped; (10, 0) is the
+   last vertex: kept *)
+Example simplify_example : catmull_simplify_R [(0, 0); (1, 0); (10, 0)] = [(0, 0); (10, 0)].
+Proof.
+  unfold catmull_simplify_R. rewrite loop_spec. cbn [app length spec].
+  assert (E : dist2 (0, 0) (1, 0) = 1).
+  { unfold dist2, sqd2, sqd. cbn [fst snd]. replace ((0 - 1) ^ 2 + (0 - 0) ^ 2) with 1 by ring. apply sqrt_1. }
+  rewrite E.
+  assert (F : far_R6 1 = false).
+  { unfold far_R6. destruct (Rlt_dec simplify_dist_R 1) as [H|_]; [rewrite simplify_dist_value in H; lra|reflexivity]. }
+  rewrite F. change ((0 + 1 + 1) mod catmull_segment_len =? 0)%Z with false.
+  change (0 + 1 =? Z.of_nat 3 - 1)%Z with false. cbn [orb].
+  change (0 + 1 + 1 =? Z.of_nat 3 - 1)%Z with true. rewrite !Bool.orb_true_r. reflexivity.
+Qed.
